@@ -221,6 +221,39 @@ def open' (k : K) (comps : List String) (acc : Access) (f : Flags) (mode : Nat) 
         | some (.reg m _) => .ok fd (installFd k (insert k.tree p (.reg m [])) fd p acc f)
         | _ => .ok fd (installFd k k.tree fd p acc f)
 
+/-! ## O_CREAT and a trailing slash -/
+
+/-- the components without the empty ones that a run of trailing slashes leaves at the end -/
+def dropTrailingEmpty : List String → List String
+  | [] => []
+  | c :: cs =>
+    match dropTrailingEmpty cs with
+    | [] => if c = "" then [] else [c]
+    | r => c :: r
+
+/-- the path ends in `/` and what precedes the slashes is an ordinary name (not `.`, not `..`):
+    `new/`, `d1/new//` — but not `d1/./`, `../` -/
+def slashAfterName (comps : List String) : Bool :=
+  comps.getLast? = some "" &&
+    (match (dropTrailingEmpty comps).getLast? with
+     | some c => c ≠ "." && c ≠ ".."
+     | none => false)
+
+/-- `open` as the kernel runs it.  Linux (`fs/namei.c`, `open_last_lookups`): with O_CREAT a last component
+    that is an ordinary name followed by a slash is refused with EISDIR once the directories before it have
+    been walked — whether the name is missing, a regular file or a directory, and before O_EXCL is looked
+    at.  Nothing is created.  (Without O_CREAT the slash only demands a directory: `resolve` treats the
+    name as an intermediate component.)  Every other call is `open'`. -/
+def openT (k : K) (comps : List String) (acc : Access) (f : Flags) (mode : Nat) : Res Nat :=
+  if f.create && slashAfterName comps then
+    match allocFd k 0 with
+    | none => .err .EMFILE
+    | some _ =>
+      match resolve k.tree k.cwd (dropTrailingEmpty comps) with
+      | .error e => .err e
+      | .ok _ => .err .EISDIR
+  else open' k comps acc f mode
+
 /-! ## read / write / lseek -/
 
 def updOfd (k : K) (i : Nat) (o : Ofd) : K := { k with ofds := k.ofds.set i o }
@@ -329,6 +362,21 @@ def fstat (k : K) (fd : Nat) : Except Errno Node :=
   | some (_, o) => match lookup k.tree o.path with
     | none => .error .ENOENT
     | some n => .ok n
+
+/-- `IsExecutableFile::is_executable_file` (what command search asks for every `dir/name` candidate): the
+    path resolves to a REGULAR file with at least one execute bit (the caller is root: any of the three bits
+    will do).  A directory — which also carries `x` bits —, a missing file, a path through a regular file and
+    the empty path are not executable files. -/
+def isExec (k : K) (comps : List String) : Bool :=
+  match statPath k comps with
+  | .ok (.reg m _) => (m % 512) &&& 73 != 0
+  | _ => false
+
+/-- command search over the directories of `$PATH`, in order: the first `dir/name` that is an executable
+    file.  (`yash_env::path`-style search as the shell performs it through `is_executable_file`.) -/
+def searchPath (k : K) : List (List String) → String → Option (List String)
+  | [], _ => none
+  | d :: ds, name => if isExec k (d ++ [name]) then some (d ++ [name]) else searchPath k ds name
 
 /-- names bound directly under `p` (each once) -/
 def children (t : Tree) (p : Path) : List String :=
